@@ -225,7 +225,7 @@ def gen_document_case(rng):
         if rng.random() < 0.3:
             body[other] = ["N2"]
         d.update(field=which, bad=cols, form=form)
-        return {"cls": "RTFDocument", "doc": {"df": 3, "body": body, "form": form}, "desc": d, "n": 2,
+        return {"cls": "RTFDocument", "doc": {"df": rng.choice([0, 1, 3, 3]), "body": body, "form": form}, "desc": d, "n": 2,
                 "expect": "ValueError"}
     if r < 0.55:
         d.update(field="df+figure")
